@@ -29,12 +29,31 @@ What is decided (all structurally, nothing under /repo is imported or run):
                  `self.tasks(key, **kwargs)` (`WBS.tasks` = all tasks below the root); every match is removed (through
                  `self.remove` resp. `self.__remove(t, self.__root)`), unconditionally; every return yields the whole match
                  list (not only the matches the tree walk reported as removed); `WBS.__remove` removes from the current
-                 node's children and recurses into every child.
+                 node's children and recurses into every child.  `__remove` may hand the walk to a private helper of the class
+                 (`return self.__remove_below(task, current)` behind the None pre-check, parameters in any order, recursion
+                 through either function); an iterative walk (`while stack:`) is UNDECIDED.
+* remove_each    remove_all calls `self.remove(t)` once per match on ONE list object.  Every concrete `remove`
+                 (_ChildrenList / _PredecessorsList / _SuccessorsList) rebuilds the owner's list and writes it through the owner's
+                 property setter: the source of the rebuild must be current at every call - the owner's property read again
+                 (`self.__parent.predecessors`), or the wrapper's own `_list` ONLY when the setter never rebinds the backing
+                 field the getter hands to the wrapper (children: cleared and refilled in place).  A rebuild from `self._list`
+                 / `self` combined with a setter that binds a new list (`self.__predecessors = [..]`) is refuted: after the
+                 first removal the snapshot is stale and the next one re-adds what was removed (C18-r33).  In-place removal
+                 from `self._list` is accepted; any other design of `remove` is UNDECIDED.
 
 Floors (sites read on today's tree): suffix_table 12 (11 suffixes + plain keyword), resolver 20 (18 public attributes + a custom
 attribute + parent_id), all_filters 1 (the single return of __call__), result 3, readonly 19 (7 query functions + 12 getters),
 bulk_assign 1, remove_all 9 (per variant: query, removal, "all returns" counted once so that merging returns is not an
-analysis error; WBS.tasks; two sites in WBS.__remove).  A function end reachable without `return` counts as `return None`.
+analysis error; WBS.tasks; two sites in WBS.__remove), remove_each 3.  A function end reachable without `return` counts as
+`return None`.
+
+Shapes followed since round 3: the attribute resolver is today's `__get_task_attribute` or - when that anchor is gone - the
+one package function `search` calls as `<fn>(<task>, <name>)` (moved to module level, to another class, nested in `__call__`);
+a filter of the result comprehension / selection loop that calls a predicate nested in `__call__` (or a local bound to a
+lambda) is replaced by the predicate's if/return chain folded into one boolean expression; `return <condition>` inside the
+filter loop of `search` is read as `if <condition>: return True else: return False` (so it is refuted like `return True`:
+the remaining filters are skipped); the key functions of `order_by` are looked for in order_by and in the private
+key-function builders it calls.
 
 Not decided: what user supplied predicates do (assumed pure); attribute names that themselves end in a filter suffix
 (`is_not` + `_in_`); that `_ChildrenList.remove` detaches the whole subtree (C11 territory); regular-expression semantics;
